@@ -13,11 +13,14 @@ SRootOf == [c \in SCerts |-> "R1"]
 SAccepts == [l \in SLogs |-> IF l = "x1" THEN {"R2"} ELSE {"R1"}]
 SKindU == [v \in {"A", "B", "U"} |-> IF v = "U" THEN "unparsable" ELSE "good"]
 SKindN == [v \in {"A", "B", "N"} |-> IF v = "N" THEN "nobuild" ELSE "good"]
+SKind2 == [v \in {"A", "B"} |-> "good"]
 SStateOf(v) == [l \in SLogs |-> CASE v = "B" /\ l = "n1" -> "retired"      \* B removes n1 ...
                                   [] v = "A" /\ l = "x1" -> "pending"      \* ... and promotes x1
                                   [] OTHER -> "usable"]
 SLogStateU == [v \in {"A", "B", "U"} |-> SStateOf(v)]
 SLogStateN == [v \in {"A", "B", "N"} |-> SStateOf(v)]
+SLogState2 == [v \in {"A", "B"} |-> SStateOf(v)]
+SWindow2 == [v \in {"A", "B"} |-> [l \in SLogs |-> SCerts]]
 SWindowU == [v \in {"A", "B", "U"} |-> [l \in SLogs |-> SCerts]]
 SWindowN == [v \in {"A", "B", "N"} |-> [l \in SLogs |-> SCerts]]
 
@@ -40,6 +43,6 @@ BWindow == [v \in BVersions |-> [l \in BLogs |->
 Catalogue == [versions |-> [v \in Versions |-> [kind |-> Kind[v], state |-> LogState[v], window |-> Window[v]]],
               accepts |-> Accepts, rootOf |-> RootOf, rootEvery |-> RootEvery]
 
-(* ---- exhaustive runs: history variables do not distinguish states ---- *)
-StateView == <<envVars, mgrVars, tickVars, loopVars, rootVars, spc, scert, sgen, sknown, scont, sfloor>>
+\* submission identities are interchangeable (safety runs only)
+SubsSym == Permutations(Subs)
 =============================================================================
